@@ -54,6 +54,9 @@ impl Name {
                 ctx.report(format!("duplicate entry in name_record: '{}'", left.3))
             }
         }
+        // A custom validation method replaces the generated validation of
+        // the items in the array, so we have to do that here.
+        self.name_record.validate_impl(ctx);
     }
 }
 
